@@ -200,6 +200,14 @@ class ModelState:
                 whole = None
             except (TypeError, IndexError, KeyError):
                 whole = True
+        if isinstance(tgt, list) and whole:
+            if op in ("append", "extend", "iadd"):
+                whole = None  # nothing that exists is reassigned, removed or moved
+            elif op == "setitem" and args and isinstance(args[0], int) and not isinstance(args[0], bool):
+                # item assignment reassigns one position (the list in the model is already the new one, same length)
+                i = args[0] + len(tgt) if args[0] < 0 else args[0]
+                if 0 <= i < len(tgt):
+                    whole, key = False, i
         if whole is not None:
             self._detach_same_parent(root, path, key, whole)
         # rule (i): kinds along every retained path
